@@ -273,6 +273,9 @@ type World struct {
 	pendingPrefix [][3]Term
 	pendingPerm   [][3]Term
 	pendingSum    [][3]Term
+	pendingCat    [][3]Term // c = a ++ b (sum folds distribute)
+	pendingZeroMask []Term  // all-false []bool values (make)
+	zeroMaskDone  map[string]bool
 	ModPath   string
 	seqSorts  []Sort
 	Facts     []string
